@@ -21,6 +21,16 @@ theorem pot_ge {R : Nat} {b : IS} (h : 1 ≤ b.m) : 4 + R ≤ pot R b := by
 theorem pot_le {R : Nat} (b : IS) : pot R b ≤ 4 * b.m + R := by
   unfold pot; split <;> omega
 
+theorem pot_putback (R : Nat) (s : IS) (c : Byte) : pot R (s.putback c) ≤ pot R s + 4 ∧ (s.putback c).m ≤ s.m + 1 ∧
+    (s.m = 0 → (s.putback c).m = 0) := by
+  have h1 := putback_m s c
+  refine ⟨?_, h1, fun h => putback_m_zero s c h⟩
+  by_cases hz : s.m = 0
+  · rw [pot_zero (putback_m_zero s c hz)]; omega
+  · by_cases hz2 : (s.putback c).m = 0
+    · rw [pot_zero hz2]; omega
+    · rw [pot_pos (by omega), pot_pos (by omega)]; omega
+
 /-- the guarded comment loop: with `n ≤ R` iterations left, one step per consumed byte while the stream is alive,
 and at most `n` spins once it has failed -/
 theorem commentLoop_pot (R : Nat) : ∀ (n : Nat) (s : IS) (c : Byte) (len steps : Nat), n ≤ R →
